@@ -440,20 +440,30 @@ def run_generic(case, ctx):
     p = float(rng.uniform(2, 8))
     spn = net.append(pym.PNorm(sm, p=p))
     ssc = net.append(pym.Scaling(spn, scaling=10.0, maxval=float(rng.uniform(1, 4))))
+    maxval = net.mods[-1].maxval
+    # one signal used twice by one module, in positions that are not interchangeable: b^T E b and E E with a non-symmetric E
+    e0, W0 = rng.uniform(-1, 1, (n, n)), rng.uniform(-1, 1, (n, n))
+    se, sW = pym.Signal("e", e0.copy()), pym.Signal("W", W0.copy())
+    sq = net.append(pym.EinSum([sb, se, sb], expression="i,ij,j->"))
+    see = net.append(pym.EinSum([se, se], expression="ij,jk->ik"))
+    sww = net.append(pym.EinSum([see, sW], expression="ij,ij->"))
     with warnings.catch_warnings():
         warnings.simplefilter("ignore")
         net.response()
-    w = rng.standard_normal(2)
-    which = [bool(rng.integers(0, 2)), bool(rng.integers(0, 2))]
+    w = rng.standard_normal(4)
+    which = [bool(rng.integers(0, 2)) for _ in range(4)]
     if not any(which):
         which[1] = True
     if which[0]:
         sdot.sensitivity = float(w[0])
     if which[1]:
         ssc.sensitivity = float(w[1])
+    if which[2]:
+        sq.sensitivity = float(w[2])
+    if which[3]:
+        sww.sensitivity = float(w[3])
     net.sensitivity()
-    ga, gb, gc, gd = sa.sensitivity, sb.sensitivity, scs.sensitivity, sd.sensitivity
-    maxval = net.mods[-1].maxval
+    ga, gb, gc, gd, ge = sa.sensitivity, sb.sensitivity, scs.sensitivity, sd.sensitivity, se.sensitivity
 
     def F(a, b, c):
         z = a + 1j * b
@@ -468,17 +478,19 @@ def run_generic(case, ctx):
         va, vb, vc = rng.standard_normal(n), rng.standard_normal(n), float(rng.standard_normal())
         h = 1e-30      # complex-step on my own forward model is exact for these analytic real functions ... except |z|: use real formula
         # |a+ib| is not complex-analytic in (a,b): write it as sqrt(a^2+b^2), which is
-        def Fcs(a, b, c, d):
+        def Fcs(a, b, c, d, e):
             cat = np.concatenate([a[1:], [c], np.sqrt(a * a + b * b), d.ravel()])
             m = np.sin(cat) * c + cat ** 2
             dot = np.sum(m[:n] * a)
             pn = np.sum(m ** p) ** (1 / p)
             sc_ = 10.0 * (pn / maxval - 1)
-            return (w[0] * dot if which[0] else 0.0) + (w[1] * sc_ if which[1] else 0.0)
+            return (w[0] * dot if which[0] else 0.0) + (w[1] * sc_ if which[1] else 0.0) + \
+                (w[2] * (b @ e @ b) if which[2] else 0.0) + (w[3] * np.sum(W0 * (e @ e)) if which[3] else 0.0)
         vd = rng.standard_normal((2, 3))
-        ref = float(np.imag(Fcs(a0 + 1j * h * va, b0 + 1j * h * vb, c0 + 1j * h * vc, d0 + 1j * h * vd)) / h)
+        ve = rng.standard_normal((n, n))
+        ref = float(np.imag(Fcs(a0 + 1j * h * va, b0 + 1j * h * vb, c0 + 1j * h * vc, d0 + 1j * h * vd, e0 + 1j * h * ve)) / h)
         an = float(np.sum((0 if ga is None else ga) * va) + np.sum((0 if gb is None else gb) * vb) + (0 if gc is None else gc) * vc
-                   + np.sum((0 if gd is None else np.asarray(gd)) * vd))
+                   + np.sum((0 if gd is None else np.asarray(gd)) * vd) + np.sum((0 if ge is None else np.asarray(ge)) * ve))
         err = abs(an - ref) / max(abs(an), abs(ref), 1e-12)
         worst = max(worst, err)
         if not err <= 1e-9:
